@@ -159,4 +159,11 @@ PROPS = {
         partial=["go-playground's traversal (declaration order, first failing tag per field, nil pointer skipped, dive) is the driver's interpreter, not a Lean theorem", "JSON5 syntax beyond JSON is not generated"],
         assumptions=[],
     ),
+    "C07": dict(
+        streams=[dict(mode="proj", quick=70, thorough=1500, workers=14, driver_workers=2, timeout=3000, env={"VH_TYPES": "1"})],
+        rule="type-graph projects printed as real Go source and run through the real pipeline: 2-10 declarations over three packages (structs with fields over primitives, time.Time, []byte, any, earlier types and the struct itself behind pointers / slices / string-keyed maps nested up to depth 3, embedded structs by value and by pointer, every spelling of the json tag, unexported fields, validate tags; enums of every basic kind with decoy constants of other types; typedef and assigned aliases, alias of alias), 1-2 controllers using a random subset as body / result / query / header / path / form parameters with and without usage-site validators (oneof on enum types) and descriptions; unused types stay. Compared for BOTH documents: the component key set (= reachable declarations + Rfc7807Error iff a route returns a plain error), the closure spec (roots present, closed, nothing unreachable) on the implementation's own key set, and every component's canonical structure (title, description, type, format, $ref, items, additionalProperties, properties, required, allOf, enum members as text). non-trivial = accepted project with at least one component; distinct = distinct project",
+        trusted_base=COMMON_TB + ["parseTExpr / tagValue (driver): Go type text and struct tags of the GENERATED sources to the model's TExpr / Field", "canonComponent (driver): projection of a schema to its structural keywords; numeric / boolean enum members compared as text (3.0 renders them as strings: C08-F1 / C11-F2)"],
+        partial=["closure fuel = number of declarations is not proved sufficient in Lean: `isClosed` of the model's closure is evaluated on every case (modelfail otherwise) and `components_complete` takes it as hypothesis", "constraint keywords (minimum, minLength, ...) of field-level validators are C11's subject and ignored here", "generic types, mutually recursive structs (rejected by the tool) and aliases of composite types (rejected by the tool) are not generated"],
+        assumptions=[],
+    ),
 }
